@@ -86,8 +86,12 @@ def cases(draw):
             span = {"uint8": 255, "uint16": 65535, "uint32": 2 ** 32 - 1,
                     "uint64": 2 ** 52, "float32": 1}[out]
             k = draw(st.sampled_from([1, 2, 0.5, 4]))
-            imin = draw(st.sampled_from([0.0, -16.0, 8.0]))
-            mm = [imin, imin + span * k]
+            imin = draw(st.sampled_from([0.0, -16.0, 8.0, None]))
+            if imin is None:
+                # a window that ends exactly at zero (e.g. CT: -1000..0)
+                mm = [-float(span * k), 0.0]
+            else:
+                mm = [imin, imin + span * k]
         elif kind == "free":
             a = draw(st.floats(-1000, 1000))
             mm = [a, a + draw(st.floats(1, 10000))]
@@ -352,5 +356,5 @@ def replay(ctx, case):
     check_case(ctx, case)
 
 
-SUBS = [Sub("convert", run, replay, quick=700, thorough=20000,
+SUBS = [Sub("convert", run, replay, quick=700, thorough=160000,
             min_per_shard=10)]
